@@ -381,7 +381,7 @@ def check(ctx):
         with ctx.section(name):
             try:
                 fn(ctx)
-            except InterpError as e:
+            except (InterpError, ModelRaised) as e:      # an exception of the interpreted code that no scenario expected is confined to this section
                 raise AnalysisError(f"C27/{name}: the code uses a construct the evaluator cannot interpret: {e}")
 
 
